@@ -231,6 +231,7 @@ struct Ctx {
 struct FnEmitter {
     Ctx& C;
     std::map<const Stmt*, int> ids;
+    std::map<const VarDecl*, int> varIds;
     int nextId = 0;
     std::vector<const LambdaExpr*> lambdas;
     explicit FnEmitter(Ctx& c) : C(c) {}
@@ -372,6 +373,7 @@ struct FnEmitter {
             for (const Decl* D : DS->decls()) {
                 if (const auto* VD = dyn_cast<VarDecl>(D)) {
                     Object v;
+                    varIds[VD] = nextId;
                     v["id"] = nextId++;
                     v["k"] = "VarDecl";
                     v["l"] = (int64_t)C.lineOf(VD->getLocation());
@@ -539,7 +541,19 @@ struct Visitor : RecursiveASTVisitor<Visitor> {
                 Array el;
                 for (const CFGElement& E : *B) {
                     if (auto S = E.getAs<CFGStmt>()) {
-                        el.push_back(FE.idOf(S->getStmt()));
+                        int sid = FE.idOf(S->getStmt());
+                        if (sid < 0) {
+                            // clang splits `T a = x, b = y;` into synthetic one-declaration DeclStmts
+                            if (const auto* DS = dyn_cast<DeclStmt>(S->getStmt())) {
+                                if (DS->isSingleDecl()) {
+                                    if (const auto* VD = dyn_cast<VarDecl>(DS->getSingleDecl())) {
+                                        auto it = FE.varIds.find(VD);
+                                        if (it != FE.varIds.end()) sid = it->second;
+                                    }
+                                }
+                            }
+                        }
+                        el.push_back(sid);
                     } else if (auto I = E.getAs<CFGInitializer>()) {
                         // refer to the init expression of the ctor initializer
                         el.push_back(FE.idOf(I->getInitializer()->getInit()));
